@@ -31,6 +31,11 @@ def run(tier, v, wd, replay=None):
             raise vlib.Infra("DnsConc.tla without the question check no longer violates ReplyMatches (%s): vacuous model" % r.violated)
     repo = vlib.scratch_repo(wd, "stub")
     run_vectors(v, wd, repo, "./control/", "TestVerifC09", beh, tags="verif,dae_stub_ebpf", timeout=3000)
+    # the same behaviours with the two questions differing in record type only (one name asked for A and for CAA = 257)
+    beh2 = beh + ".bytype"
+    with open(beh2, "w") as f:
+        f.writelines([l for i, l in enumerate(open(beh)) if (i + vlib.seed()) % (4 if tier == "quick" else 1) == 0])
+    run_vectors(v, wd, repo, "./control/", "TestVerifC09", beh2, env={"VERIF_C09_QMODE": "type"}, tags="verif,dae_stub_ebpf", timeout=3000, outname="out-bytype.json")
     # cache hits on the packet path: all interleavings of copy+patch and send for concurrent clients (DnsHitPath.tla)
     hfile = os.path.join(wd.path, "c09hit.ndjson")
     with open(hfile, "w") as out:
